@@ -139,7 +139,7 @@ class Auditor:
         self.ctx, self.prog = ctx, prog
         self.label = engine_label
 
-    def paths(self, func, inline=None, args=None, extra_models=None, max_depth=6, state=None, unwind=1):
+    def paths(self, func, inline=None, args=None, extra_models=None, max_depth=6, state=None, unwind=1, allow_bound=False):
         """symbolically execute `func`; `inline` = regex of callee names that are inlined (others uninterpreted)"""
         rx = re.compile(inline) if inline else None
         ex = Exec(self.prog, models=(extra_models or []) + models.MODELLED,
@@ -148,8 +148,9 @@ class Auditor:
         outs = ex.run(func, args if args is not None else sym_args(func), st)
         self.last_ex = ex
         bad = [o for o in outs if o.kind in ('bound', 'unreachable')]
-        if any(o.kind == 'bound' for o in outs):
+        if any(o.kind == 'bound' for o in outs) and not allow_bound:
             raise Refuse('loop bound reached in %s' % func.name)
+        self.last_bound_hits = sum(1 for o in outs if o.kind == 'bound')
         for f in ex.encoded:
             self.ctx.functions.add(f)
         return [Path(ex, o) for o in outs if o.kind in ('return', 'panic')], ex
